@@ -175,7 +175,7 @@ def scenarios(bindir):
     return [l.strip() for l in p.stdout.splitlines() if l.strip()]
 
 
-def run_one(chk, bindir, scen, k=None, errno=None, tag="dry", value=None, call=None):
+def run_one(chk, bindir, scen, k=None, errno=None, tag="dry", value=None, call=None, second=None, prior=None):
     root = tempfile.mkdtemp(prefix="fdops-", dir=chk.work)
     log = os.path.join(chk.work, "log_%s_%s.ndjson" % (scen, tag))
     rules = []
@@ -184,8 +184,12 @@ def run_one(chk, bindir, scen, k=None, errno=None, tag="dry", value=None, call=N
         rules.append("win=%s,task=1,src=exe,k=%d,ret=%d,mode=%s" % (scen, k, value, "p" if "write" in (call or "") or call == "sendmsg" else "s"))
     elif k is not None:
         rules.append("win=%s,task=1,src=exe,k=%d,ret=-%d" % (scen, k, errno))
+    if second is not None:
+        # fault pair: a later call of the same window (typically of the clean-up path) fails too
+        rules.append("win=%s,task=1,src=exe,k=%d,ret=-%d" % (scen, second["k"], second["errno"]))
+    cmd = [os.path.join(bindir, "fdops"), "run", scen, root] + ([prior] if prior else [])
     try:
-        rc, so, se, ev = SJ.run_traced([os.path.join(bindir, "fdops"), "run", scen, root], log, rules=rules, timeout=25)
+        rc, so, se, ev = SJ.run_traced(cmd, log, rules=rules, timeout=25)
     finally:
         shutil.rmtree(root, ignore_errors=True)
     res = None
@@ -274,6 +278,7 @@ def run(tier):
     mc = model_check(chk, tier)
     fixed_vecs, pinned_vecs = algorithm_models(chk)
     scens = scenarios(bindir)
+    boundary = {x for x in scens if "_peer_" in x or "_pathlen_" in x or "_entries_" in x or "_buf_" in x or x.endswith(("_empty", "_large", "_zero_buf"))}
     # 1. dry runs: the calls each scenario performs
     plan = []
     dry = {}
@@ -315,18 +320,55 @@ def run(tier):
                         if val != c["ret"]:
                             plan.append({"scenario": s, "k": c["k"], "errno": 0, "errname": "=%d" % val, "value": val,
                                          "call": c["name"], "phase": "op"})
+    # prior-state variation of the descriptor table: the same operations when the standard
+    # descriptors are closed, so that what the operation opens gets the numbers 0, 1, 2
+    for s in list(dry):
+        calls = dry[s][2]
+        plan.append({"scenario": s, "k": None, "errno": None, "prior": "0"})
+        plan.append({"scenario": s, "k": None, "errno": None, "prior": "012"})
+        for c in calls:
+            if c["phase"] == "op" and (tier != "quick" or s not in boundary):
+                n = TYPICAL.get(c["name"], "EINVAL")
+                plan.append({"scenario": s, "k": c["k"], "errno": errno_nr(n), "errname": n, "call": c["name"], "phase": "op", "prior": "012"})
     if len(dry) < 40:
         raise core.ToolError("only %d of %d scenarios complete without faults: %s" % (len(dry), len(scens), json.dumps(skipped[:5])))
     scens = [s for s in scens if s in dry]
     # 2. faulted runs
     def exec_item(it):
-        if it["k"] is None:
+        if it["k"] is None and not it.get("prior"):
             return dry[it["scenario"]][0]
+        tagp = ("p" + it["prior"] + "_") if it.get("prior") else ""
+        if it["k"] is None:
+            return run_one(chk, bindir, it["scenario"], tag=tagp + "nofault", prior=it.get("prior"))
         if "value" in it:
-            return run_one(chk, bindir, it["scenario"], it["k"], 0, "k%d_v%d" % (it["k"], it["value"]), value=it["value"], call=it["call"])
-        return run_one(chk, bindir, it["scenario"], it["k"], it["errno"], "k%d_e%d" % (it["k"], it["errno"]))
+            return run_one(chk, bindir, it["scenario"], it["k"], 0, tagp + "k%d_v%d" % (it["k"], it["value"]), value=it["value"], call=it["call"])
+        sec = it.get("second")
+        return run_one(chk, bindir, it["scenario"], it["k"], it["errno"],
+                       tagp + "k%d_e%d" % (it["k"], it["errno"]) + ("_k%d_e%d" % (sec["k"], sec["errno"]) if sec else ""),
+                       second=sec, prior=it.get("prior"))
+
     with ThreadPoolExecutor(max_workers=8) as ex:
         runs = list(ex.map(exec_item, plan))
+    # 2b. fault pairs: after failing call k, each LATER call of the same (faulted) run fails too -
+    # clean-up paths (close / unlink / munmap after an error) are where a second failure is plausible
+    pairs = []
+    for it, r in zip(list(plan), list(runs)):
+        if it["k"] is None or it.get("prior") or "value" in it or it.get("phase") != "op" or it["scenario"] in boundary:
+            continue
+        if it["errname"] != TYPICAL.get(it["call"], "EINVAL"):
+            continue
+        _, rcalls, status, injected, _ = window(r)
+        if status != "complete" or injected is None:
+            continue
+        later = [c for c in rcalls if c["k"] > it["k"]]
+        if tier == "quick" and len(rcalls) > 8:
+            later = later[:3]
+        for c in later:
+            n2 = "EINTR" if c["name"] == "close" else TYPICAL.get(c["name"], "EINVAL")
+            pairs.append(dict(it, second={"k": c["k"], "errno": errno_nr(n2), "errname": n2, "call": c["name"], "phase": c["phase"]}))
+    with ThreadPoolExecutor(max_workers=8) as ex:
+        runs += list(ex.map(exec_item, pairs))
+    plan += pairs
     # 3. trace for TLC
     trace, meta = [], {}
     incomplete = []
@@ -382,18 +424,25 @@ def run(tier):
         if w["drift"]:
             drift.append({"scenario": it["scenario"], "k": it["k"], "model_open": w["open"]})
         if it["k"] is not None and injected is not None:
-            nontrivial.add((it["scenario"], it["k"], it["errname"]))
+            nontrivial.add((it["scenario"], it["k"], it["errname"], json.dumps(it.get("second")), it.get("prior")))
         fname, nth = (None, 0) if it["k"] is None else nth_of(dry[it["scenario"]][2], it["k"])
         for kind in bad:
             sig = {"scenario": it["scenario"], "kind": kind, "fail_call": fname or "none", "fail_nth": nth,
                    "phase": it.get("phase") or "none"}
+            if it.get("second"):
+                sig["second_call"] = it["second"]["call"]
+            if it.get("prior"):
+                sig["prior"] = "closed_" + it["prior"]
             ret = [e for e in evs if e["ev"] == "return"][0]
             chk.violate(sig, "%s: %s with %s -> result %s, table %s -> %s at return -> %s after drop (handed %s)" % (
                 it["scenario"], kind,
                 "no fault" if it["k"] is None else "call %d (%s #%d%s) answering %s" % (
-                    it["k"], fname, nth, ", while the result is dropped" if it.get("phase") == "drop" else "", it["errname"]),
+                    it["k"], fname, nth, ", while the result is dropped" if it.get("phase") == "drop" else "", it["errname"])
+                + (" and then call %d (%s) failing with %s" % (it["second"]["k"], it["second"]["call"], it["second"]["errname"]) if it.get("second") else "")
+                + (" [descriptors %s closed beforehand]" % it["prior"] if it.get("prior") else ""),
                 ret["res"], evs[0]["pre"], ret["snap"], evs[-1]["snap"], ret["handed"]),
-                {"scenario": it["scenario"], "k": it["k"], "errno": it["errno"], "value": it.get("value"), "events": evs})
+                {"scenario": it["scenario"], "k": it["k"], "errno": it["errno"], "value": it.get("value"), "second": it.get("second"),
+                 "prior": it.get("prior"), "events": evs})
         if n % 37 == 0:
             chk.sample({"scenario": it["scenario"], "fail_call_index": it["k"], "fail_call": fname, "errno": it.get("errname"),
                         "calls": [c["name"] for c in calls], "broken": bad})
@@ -401,8 +450,10 @@ def run(tier):
     results = {}
     for n, w in verdicts.items():
         it, evs, calls, injected, r = meta[n]
+        if it.get("prior") or it.get("second"):
+            continue
         if it["k"] is not None and (injected is None or it.get("errname") != TYPICAL.get(it.get("call"), "EINVAL")
-                                    or it.get("phase") == "drop"):
+                                    or it.get("phase") == "drop" or it.get("second") or it.get("prior")):
             continue
         leak = "Leak" in w["bad"] or "Leak" in w["snapbad"]
         results[(it["scenario"], it["k"])] = (leak, injected["closes_after"] if injected else 0, it.get("errname"))
@@ -442,7 +493,7 @@ def replay(path):
     chk = core.Check("C12", "quick", "model_checking")
     SJ.build_tracer()
     bindir = core.cargo_build(bins=["fdops"])
-    r = run_one(chk, bindir, rp["scenario"], rp["k"], rp["errno"], "replay", value=rp.get("value"))
+    r = run_one(chk, bindir, rp["scenario"], rp["k"], rp["errno"], "replay", value=rp.get("value"), second=rp.get("second"), prior=rp.get("prior"))
     evs, calls, status, injected, fm = window(r)
     print("replayed:", rp["scenario"], "k=%s errno=%s" % (rp["k"], rp["errno"]), "status", status)
     for e in evs:
